@@ -404,6 +404,13 @@ func init() {
 		// real PCG code deterministically
 		"math/rand/v2.Uint64": func(m *Machine, fr *frame, a []Value) Value { return Const(64, 0x9E3779B97F4A7C15) },
 
+		// bitflip.CheckSliceForBitFlip: a diagnostic run after a checksum mismatch was already
+		// detected (it only decorates the error message); quadratic in the data length. Stubbed:
+		// "no single bit flip found".
+		"github.com/cockroachdb/pebble/internal/bitflip.CheckSliceForBitFlip": func(m *Machine, fr *frame, a []Value) Value {
+			return Tuple{tFalse, Const(64, 0), Const(64, 0)}
+		},
+
 		// rawalloc.New(len, cap): uninitialised bytes (modelled as zero, like make)
 		"github.com/cockroachdb/pebble/internal/rawalloc.New": func(m *Machine, fr *frame, a []Value) Value {
 			ln, cp := term(a[0]), term(a[1])
